@@ -62,6 +62,7 @@ type Case struct {
 	Entry    string `json:"entry"`     // "pin" | "block" | "shortcut" | "remove" | "alert"
 	Excluded int    `json:"excluded"`  // peer index removed/alerted (-1: none)
 	Variant  string `json:"variant,omitempty"`
+	NonNum   string `json:"nonnumeric_value"` // value carried by peers in state "nonnum"
 }
 
 func (c Case) states() string {
